@@ -543,6 +543,9 @@ gotheaders(struct http_cookie * H, uint8_t * buf, size_t buflen)
 		H->res_head = NULL;
 		H->res.headers = NULL;
 
+		/* We haven't scanned any of the remaining data yet. */
+		H->hepos = 0;
+
 		/* Go back to reading headers. */
 		return (callback_read_header(H, 0));
 	}
